@@ -2,7 +2,7 @@
     Vocabulary: Diff/Model.v (the transcription of diff/*.go and function.go:diffEnv) and Diff/Spec.v. *)
 From Dawn Require Import Diff.Model Diff.Spec Diff.Proofs_Basic Diff.Proofs_Record Diff.Proofs_Search
      Diff.Proofs_Seq Diff.Proofs_Rounds Diff.Proofs_Value Diff.Proofs_Reason
-     Diff.SpecCost Diff.SpecGraph Diff.Proofs_Total Diff.Proofs_Min Diff.Proofs_Opt.
+     Diff.SpecCost Diff.SpecGraph Diff.Proofs_Total Diff.Proofs_Min Diff.Proofs_Opt Diff.Proofs_Short.
 Open Scope Z_scope.
 
 (** The diff of two values is empty exactly when they are equal (EqualDepth at the same depth says true). *)
@@ -209,14 +209,14 @@ Theorem common_prefix_kept : forall (A : Type) (eqv : A -> A -> option bool) rou
 Proof. exact common_prefix_kept_lemma. Qed.
 Print Assumptions common_prefix_kept.
 
-(** MINIMALITY, the lower-bound half (the furthest-point theorem of the O(NP) search).  [reach x y d]
-    (Diff/SpecGraph.v) says that the point (x, y) of the edit graph can be reached from the origin by a path
-    with d deletions (steps along the shorter sequence [a]); such a path to the far corner has d + delta
-    insertions, delta = |b| - |a|.  When the search reaches the far corner (the table is not exhausted) it has
-    run pf + 1 iterations of its [for p] loop -- visible in the number (pf+1)(delta+pf+1) of snakes it
-    recorded -- and NO edit path to the corner has fewer than pf deletions: no script is cheaper than
-    delta + 2 pf.  (The upper-bound half, that the script recorded from the route chain costs exactly
-    delta + 2 pf, is not proved.) *)
+(** MINIMALITY.  [reach x y d] (Diff/SpecGraph.v) says that the point (x, y) of the edit graph of the two
+    sequences (shorter one, [a], first) can be reached from the origin by a path with d deletions (steps along
+    [a]); insertions are steps along [b], a diagonal step keeps two elements that the equivalence reports
+    equal.  A path to the far corner with d deletions has d + delta insertions, delta = |b| - |a|.
+
+    Lower bound (the furthest-point theorem of the O(NP) search): when the search reaches the far corner
+    (the table is not exhausted) it has run pf + 1 iterations of its [for p] loop -- visible in the number
+    (pf+1)(delta+pf+1) of snakes it recorded -- and NO edit path to the corner has fewer than pf deletions. *)
 Theorem search_lower_bound : forall (A : Type) (eqv : A -> A -> option bool) route_size a b size st,
   zlen A a <= zlen A b ->
   search A eqv route_size a b size = Ok st ->
@@ -226,6 +226,26 @@ Theorem search_lower_bound : forall (A : Type) (eqv : A -> A -> option bool) rou
     forall d, reach A eqv a b (zlen A a) (zlen A b) d -> pf <= d.
 Proof. intros A eqv rs a b size st H. exact (search_lower_bound_lemma A eqv rs a b size H st). Qed.
 Print Assumptions search_lower_bound.
+
+(** The script is a shortest edit script.  For all sequences, in either order, and every route-table size
+    for which the table is not exhausted (e.g. (|a|+1)(|b|+1) <= route size: route_table_suffices): the
+    number of elements the script deletes and inserts (a replacement counts both sides) is at most the
+    number of deletions plus insertions, d + (d + delta), of ANY path of the edit graph from the origin to
+    the far corner, i.e. of any way of turning one sequence into the other that keeps only elements the
+    equivalence reports equal.  ([a'], [b'] are the two sequences shorter first, as the search takes them;
+    the script itself is such a way by seq_edits_faithful_generic.)  Proof: the route chain from the corner
+    changes diagonal at most delta + 2 pf times (an entry made in iteration p on diagonal k is reached with
+    2p + k changes, resp. 2p - k + 2 delta beyond delta), the walker makes exactly one insertion or deletion
+    per change, the replace merge preserves the count, and search_lower_bound. *)
+Theorem script_is_shortest : forall (A : Type) (eqv : A -> A -> option bool) route_size a b script d,
+  diff_slice A eqv route_size a b = Ok script ->
+  exhausted A eqv route_size a b = Ok false ->
+  let a' := if zlen A a >=? zlen A b then b else a in
+  let b' := if zlen A a >=? zlen A b then a else b in
+  reach A eqv a' b' (zlen A a') (zlen A b') d ->
+  Z.of_nat (script_cost script) <= d + (d + (zlen A b' - zlen A a')).
+Proof. exact script_is_shortest_lemma. Qed.
+Print Assumptions script_is_shortest.
 
 (** The hypotheses are satisfiable. *)
 Example ex_hypotheses :
@@ -275,4 +295,24 @@ Proof.
   - eexists. split; [vm_compute; reflexivity|]. split; [vm_compute; reflexivity | vm_compute; discriminate].
   - apply (r_ins _ _ _ _ 1 1 0); [|reflexivity].
     apply (r_diag _ _ _ _ 0 0 0 1 1); [apply r_origin | reflexivity | reflexivity | reflexivity].
+Qed.
+
+(** script_is_shortest on an instance, with the bound attained: the script costs 4 and an edit path with one
+    deletion (and 1 + 2 insertions) exists *)
+Example ex_shortest :
+  exhausted Z (fun x y => Some (x =? y)) 2000000 [1;2;7;4] [1;2;5;4;7;8] = Ok false /\
+  (exists script, diff_slice Z (fun x y => Some (x =? y)) 2000000 [1;2;7;4] [1;2;5;4;7;8] = Ok script /\
+                  script_cost script = 4%nat) /\
+  reach Z (fun x y => Some (x =? y)) [1;2;7;4] [1;2;5;4;7;8] 4 6 1.
+Proof.
+  split; [vm_compute; reflexivity|]. split.
+  - eexists. split; vm_compute; reflexivity.
+  - apply (r_ins _ _ _ _ 4 5 1); [|vm_compute; reflexivity].
+    apply (r_del _ _ _ _ 3 5 0); [|vm_compute; reflexivity].
+    apply (r_diag _ _ _ _ 2 4 0 7 7); [|reflexivity..].
+    apply (r_ins _ _ _ _ 2 3 0); [|vm_compute; reflexivity].
+    apply (r_ins _ _ _ _ 2 2 0); [|vm_compute; reflexivity].
+    apply (r_diag _ _ _ _ 1 1 0 2 2); [|reflexivity..].
+    apply (r_diag _ _ _ _ 0 0 0 1 1); [|reflexivity..].
+    apply r_origin.
 Qed.
